@@ -44,28 +44,29 @@ type Conn struct {
 	nc     *simnet.Conn
 	Op     *Op // the connect op
 
-	Up, Down    []*WirePkt // client->broker, broker->client (wire taps)
-	upS, downS  refmqtt.Stream
-	upF, downF  int64
-	UpErr       error // strict parse error on bytes the client sent (attackers)
-	DownErr     error // strict parse error on bytes the broker sent
-	DownErrAt   int64
-	Recvd       []*Recv
-	FirstBytes  []byte  // the first bytes the client sent (up to 512)
-	UpVT        []int64 // virtual time of every chunk the client put on the wire
-	rdS         refmqtt.Stream
-	Dead        bool   // reader observed the end of the connection
-	DeadKind    string // eof, reset, error
-	DeadStamp   int64
-	DeadVT      int64
-	ClientEnded bool   // the client ended it (DISCONNECT, FIN, RST, cut)
-	EndKind     string // disconnect, fin, rst
-	EndStamp    int64  // stamp at which the client started ending it
-	HalfClosed  int64  // stamp of the client's half-close (FIN sent, still reading); 0 = none
-	EndVT       int64
-	OpenStamp   int64
-	OpenVT      int64
-	LastUpVT    int64 // virtual time of the last byte the client wrote
+	Up, Down            []*WirePkt // client->broker, broker->client (wire taps)
+	upS, downS          refmqtt.Stream
+	upF, downF          int64
+	UpErr               error // strict parse error on bytes the client sent (attackers)
+	DownErr             error // strict parse error on bytes the broker sent
+	DownErrAt           int64
+	Recvd               []*Recv
+	FirstBytes          []byte  // the first bytes the client sent (up to 512)
+	UpVT                []int64 // virtual time of every chunk the client put on the wire
+	rdS                 refmqtt.Stream
+	Dead                bool   // reader observed the end of the connection
+	DeadKind            string // eof, reset, error
+	DeadStamp           int64
+	DeadVT              int64
+	ClientEnded         bool   // the client ended it (DISCONNECT, FIN, RST, cut)
+	EndKind             string // disconnect, fin, rst
+	EndStamp            int64  // stamp at which the client started ending it
+	HalfClosed          int64  // stamp of the client's half-close (FIN sent, still reading); 0 = none
+	UnreadAtServerClose int    // bytes sent by the client that the broker had not read when Server.Close was called
+	EndVT               int64
+	OpenStamp           int64
+	OpenVT              int64
+	LastUpVT            int64 // virtual time of the last byte the client wrote
 
 	changed  simrt.Pulse
 	stalled  bool
@@ -952,6 +953,10 @@ func (r *run) markQ() {
 func (r *run) closeServer() {
 	s := r.s
 	h := r.h
+	for _, c := range h.Conns {
+		// what the broker has not read yet when it is asked to shut down
+		c.UnreadAtServerClose = c.nc.Unread()
+	}
 	h.ServerCloseCall = s.Stamp()
 	s.Go("server-close", false, func() {
 		// A program that closes a server it started in another goroutine has
